@@ -241,6 +241,30 @@ pub fn run(tier: Tier) -> i32 {
             }
         }
     }
+    // dashes glued to the words (a doubled hyphen, a trailing or leading one): whatever the tokenizer makes of them,
+    // the two numbers are never fused into one
+    for l in langs::ALL {
+        let lang = l.facade();
+        for &a in &reps[..24] {
+            for &b in &reps[..24] {
+                let (sa, sb) = (spell::spell(l, a, Var::default()), spell::spell(l, b, Var::default()));
+                if sa.contains("eine ") || sb.contains("eine ") {
+                    continue;
+                }
+                for p in ["--", "- ", " -", "-- ", " --", "---", "- - "] {
+                    // ' -' in front of a word that may take a hyphen is ordinary hyphenation, not tested here
+                    acc.states += 1;
+                    acc.traces += 1;
+                    let text = format!("{sa}{p}{sb}");
+                    let got = guard(|| replace_numbers_in_text(&text, &lang, 0.0)).unwrap_or_else(|e| e);
+                    let fused = !got.is_empty() && got.chars().all(|c| c.is_ascii_digit());
+                    if fused {
+                        ctx.report(&mut acc, Violation { lang: l.code().into(), entry: "replace_text".into(), input: text, threshold: Some(0.0), clause: "dashes between two spelled numbers never fuse them into one numeral".into(), expected: "two numerals, or words left as they are".into(), observed: got });
+                    }
+                }
+            }
+        }
+    }
     let cov = json!({
         "exhaustive": true,
         "rule": "all ordered pairs (A,B) of phrases of <= k symbols over the context alphabet x 2 strong separators x thresholds {0,10}, differential: rewrite(A S B) vs rewrite(A) S rewrite(B); all pairs of 30 representative numbers x 14 punctuation strings at threshold 0; non-trivial = pairs where A is changed by rewriting, plus all punctuation cases",
